@@ -640,6 +640,17 @@ func (m *lfsModule) streamDownloadWithVerify(r *http.Request, w http.ResponseWri
 			"S3 object exceeds envelope-declared size; refusing to serve")
 		return
 	}
+	if written < expectedSize {
+		// A truncated object must not pass just because the caller-supplied
+		// SHA-256 happens to describe the truncated bytes: the declared size
+		// is part of the integrity contract.
+		m.logger.Error("LFS download shorter than envelope-declared size",
+			"bucket", logSafe(bucket), "key", logSafe(key), "expected_size", expectedSize, "bytes_read", written)
+		m.tracker.EmitDownloadIntegrityFailed(requestID, bucket, key, "stream", "sha256", expectedSHA, "", written, expectedSize)
+		m.lfsWriteHTTPError(w, requestID, "", http.StatusBadGateway, "integrity_failure",
+			"S3 object is shorter than envelope-declared size; refusing to serve")
+		return
+	}
 
 	actualSHA := hex.EncodeToString(hasher.Sum(nil))
 	if actualSHA != expectedSHA {
